@@ -66,6 +66,11 @@ CLAIMED = {
          "Run count, exit-code decision and sub-tree failure are theorems for every attempts value and every exit-code stream; real processes, working directories, pids and captured output are runtime behaviour sampled by end-to-end CLI runs (quick 20, thorough 400 studies) in which every observed execution sequence must equal the model's.",
          "Trusted: Lean kernel; standard axioms; /bin/bash, the OS process model and the file system (sampled); the launcher stubs only time.sleep.",
          "DESIGN.md §6 C19"),
+ "C15": ("proof",
+         "Lean 4 theorems over Model/Launcher.lean (Python-typed resource values, every exception an Except error): scheduled iff nodes/procs declared; local script exact; Slurm header = exactly one directive per requested resource with the step-else-batch fallback law; launcher-token loop invariant (each token replaced by its own launcher, per-token and total budgets) for every adapter; only ValueError rejections on Slurm/Flux; proved counterexamples for the known findings + resource-space correspondence with the real Slurm/LSF/Flux/local write_script (script text or exception class) + independent header/launcher monitor",
+         "Theorems hold for every batch block, resource dictionary (any value types) and command text. Full-strength 'never fails / exactly the declared resources' is proved for Slurm (header exactness, never-fails without bracketed tokens, clean rejection with them); the launcher-loop theorem covers all adapters; LSF and Flux headers are modelled and tied by correspondence and the monitor but carry no exactness theorem, and five combination-specific defects are known findings with Lean witnesses (LSF needs nodes and procs, LSF [Pp] token, [Nn] token, Flux nodes-only, LSF empty directives). Five other defects were repaired ('fix:' commits).",
+         "Trusted: Lean kernel; standard axioms; the correspondence harness (real adapters, fake flux module for version/handle only); Python str.format/str()/int()/float() modelled for the decimal ASCII spellings the generators produce (fractional Flux walltimes and non-ASCII digits are outside the model); regular expressions of schedulerscriptadapter.py modelled by hand (findAllocs, hasLegacy, digitsBefore) and validated by the correspondence.",
+         "DESIGN.md §6 C15"),
  "C14": ("proof",
          "Lean 4 theorems over Model/Dag.lean (acyclicity invariant, DFS cycle-detection soundness/completeness, toposort, BFS/DFS exactness, fuel sufficiency) + operation-sequence correspondence with the real DAG class + property monitor",
          "Machine-checked theorems for all operation sequences and all graphs over a hand-written model of dag.py; the model is tied to the code on every run by a differential run (random + bounded-exhaustive operation sequences, state compared after every operation) and the property is also monitored directly on the real graph.",
